@@ -1,4 +1,1990 @@
 package main
 
-// genIoJson: placeholder until the translation of this part of the library is written (an empty generated file).
-func genIoJson() string { return "" }
+// Translation of internal/io/json.go (fillInts, fillFloats, fillBools, fillStrings, jsonRecordsToData,
+// UnmarshalJSON) and of the wrapper ReadJSON of qframe.go into Gallina (coq/Gen/GenIoJson.v, tie T1 for the JSON
+// reader, properties C14 / C17).
+//
+// The functions listed in gjSpecs are translated statement by statement into definitions gj_<name>.
+// coq/Proofs/GenIoJsonProofs.v proves every generated definition equal to the hand-written model of
+// coq/Model/JsonRead.v (fill, records_to_data, read_json_records, read_json: the one the strings engine executes
+// through Corr/StringsCorr.v), so that an edit of these Go functions changes the generated text and breaks a named
+// theorem T1_iojson_<name> of coq/Properties/T1IoJson.v, while the theorems of C14 keep talking about the model.
+//
+// THE SCHEME (anything that does not fit is reported through problem(...); the block then keeps the text of the
+// golden copy, marked FALLBACK, so that the development still builds — the exit status says the tie is broken).
+//
+//	encoding/json  THE ABSTRACTION BOUNDARY.  io.Reader is a value of an arbitrary type Rd, *json.Decoder a value
+//	            of an arbitrary type Dec, with arbitrary answers (section variables): json_NewDecoder : Rd -> Dec
+//	            and json_Decode : Dec -> JSONRecords -> gj_error * Dec * JSONRecords (decoder.Decode(&records):
+//	            the error, the decoder afterwards, the records afterwards).  Only Decode(&v) with v a variable of
+//	            type JSONRecords is understood.
+//	qframe.New  THE OTHER BOUNDARY (translated in GenQFrameOps.v): in ReadJSON the call New(data, confFuncs...) is
+//	            qf_New : data map -> CF -> outcome Q and the literal QFrame{Err: err} is qf_Err : gj_error -> Q
+//	            for arbitrary types Q (QFrame) and CF ([]newqf.ConfigFunc).
+//	interface{} REFLECTION AS A TAGGED UNION, fixed per place (gjPlaces):
+//	            any     a decoded JSON value (the element type of the maps of JSONRecords): gj_any,
+//	                    gj_any_nil | gj_any_bool b | gj_any_float64 bits | gj_any_string s | gj_any_int z |
+//	                    gj_any_other (whatever else encoding/json can produce: nested maps and slices).
+//	                    switch t := v.(type) is a match on the constructor (cases int, float64, bool, string, nil,
+//	                    default; in a case with one type t is the payload, in a case with several types and in
+//	                    default it is v itself); x, ok := v.(T) is the match with (zero, false) elsewhere.
+//	            data    the values of the result map (what qframe.New takes): newdata of Model/Ops.v; a []int
+//	                    stored there is DInts, []float64 DFloats, []bool DBools, []*string DStrPtrs, []string
+//	                    DStrings.
+//	maps        ASSOCIATION LISTS.  map[string]V is option (list (bytes * V)): None = nil map.  m[k] finds the
+//	            FIRST pair for k (gj_map_lookup), m[k] = v replaces the first pair for k or appends
+//	            (gj_map_set, Panic on a nil map), range m runs over the pairs in list order (Go leaves the order
+//	            open: the theorems hold for every list; a list that represents a Go map has no key twice, which
+//	            is a premise where it matters).  v, ok := m[k] gives the zero value and false where there is
+//	            no entry.
+//	slices      []T -> list; nil is []; len -> Z.of_nat (length x); x[i] -> gj_list_index (Panic outside);
+//	            make([]T, n) -> gj_make zero n (Panic when n < 0); x[i] = v -> gj_list_set (Panic outside).
+//	            A slice ARGUMENT whose elements the callee assigns is threaded through: the callee answers
+//	            outcome (r1 * .. * rn * out1 * ..) where the outs are those arguments, and at the call the new
+//	            value is stored back into the variable it was taken from (the length never changes, the caller's
+//	            slice shares the backing array: sound because the argument must be a plain variable).
+//	pointers    *string: &s is Some s, nil is None.  &records as the argument of Decode: see above.
+//	errors      gj_error = gj_nil | gj_err: every non-nil error is the one value gj_err (texts abstracted).
+//	            qerrors.New(..) and qerrors.Propagate(..) are gj_err (both answer a struct value, never nil); their
+//	            arguments only build the message and are NOT translated (accepted shapes: literals, variables,
+//	            err.Error()).
+//	numbers     int -> Z, exact (overflow of counters is outside the translation as it is outside the model);
+//	            float64 -> N (the bit pattern).
+//	strings     string -> bytes; a literal -> (bs len 0xHEX); == is bytes_eqb.
+//	fuel        a function that contains a for loop with a condition (or calls such a function) takes
+//	            (fuel : nat) first: O => Panic | S fuel' => body; inside, every such loop is entered with the
+//	            budget fuel' and every fuelled call gets fuel'.  Range loops are structural and take no fuel (the
+//	            source as it is now has range loops only: no generated function takes fuel).
+//	control     if / switch: the rest of the block is continued inside every branch that falls through.
+//	            for init; cond; post / for cond: a Fixpoint gj_f_loopN over its own counter k (O => Panic):
+//	              S k' => if cond then body; post; loop k' .. else exit.          continue = post; loop; break = exit
+//	            for i, x := range X (X a slice; or k, v over the pairs of a map): a Fixpoint over the list (X
+//	            evaluated once): [] => exit | x :: l' => body; loop l' (i + 1) ..
+//	            A loop without return inside answers the outer variables it assigns.  With a return inside it
+//	            answers gj_flow: gj_fall vars (left normally) | gj_ret r (the function returned r).
+//	scopes      x, y := .. may re-use a variable declared in the very same block (Go assigns it); every other
+//	            redeclaration (shadowing) is rejected.
+//	rejected    goto, labels, fallthrough, defer, go, shadowing, closures, method values, everything else.
+
+import (
+	"flag"
+	"fmt"
+	"go/ast"
+	"go/token"
+	"math/big"
+	"os"
+	"path/filepath"
+	"strconv"
+	"strings"
+)
+
+const gjPkg = "internal/io"
+const gjRootPkg = "."
+const gjImportPath = "github.com/tobgu/qframe/internal/io"
+
+// in dependency order (a callee before its callers); "root:" marks the function of the root package
+var gjSpecs = []string{"fillInts", "fillFloats", "fillBools", "fillStrings", "jsonRecordsToData", "UnmarshalJSON", "root:ReadJSON"}
+
+// the finer types of interface{} places (named type, "function.variable", "function.resultN")
+var gjPlaces = map[string]string{
+	"JSONRecords":               "any",
+	"jsonRecordsToData.result":  "data",
+	"jsonRecordsToData.result0": "data",
+	"UnmarshalJSON.result0":     "data",
+}
+
+const gjPreamble1 = `(* GENERATED by tools/qf2coq (iojson.go) from internal/io/json.go and qframe.go (ReadJSON) of tobgu/qframe — do not
+   edit.  One definition gj_<function> per translated Go function, one Fixpoint .._loopN per loop; the scheme is
+   described at the top of tools/qf2coq/iojson.go.
+   Rd / Dec / json_NewDecoder / json_Decode : the io.Reader and encoding/json's Decoder (arbitrary states, arbitrary
+   answers); Q / CF / qf_New / qf_Err : QFrame, the configuration functions, qframe.New and QFrame{Err: err}
+   (arbitrary).  A decoded value (interface{}) is a gj_any; the values of the result map are newdata of Model/Ops.v;
+   maps are option (association list), first pair found; errors are gj_nil | gj_err; int is Z, float64 its bit
+   pattern in N, string is bytes, *string is option bytes.  A slice argument whose elements the function assigns
+   is answered after the Go results.  No function has a conditional loop: none takes fuel. *)
+From QF Require Import Base.Prelude Model.Frame Model.Ops.
+Local Open Scope Z_scope.
+
+(* error values: nil, anything else *)
+Inductive gj_error := gj_nil | gj_err.
+Definition gj_error_isnil (e : gj_error) : bool := match e with gj_nil => true | gj_err => false end.
+
+(* a decoded JSON value: what encoding/json stores into an interface{} (int never, it is a case of the source) *)
+Inductive gj_any :=
+| gj_any_nil | gj_any_bool (b : bool) | gj_any_float64 (f : N) | gj_any_string (s : bytes) | gj_any_int (z : Z)
+| gj_any_other.
+Definition gj_any_isnil (t : gj_any) : bool := match t with gj_any_nil => true | _ => false end.
+
+(* control flow out of a loop that contains a return *)
+Inductive gj_flow (Rt V : Type) := gj_fall (v : V) | gj_ret (r : Rt).
+Arguments gj_fall {Rt V} v.
+Arguments gj_ret {Rt V} r.
+
+(* x == nil on a slice; m == nil on a map / p == nil on a *string *)
+Definition gj_isnil {T : Type} (s : list T) : bool := match s with [] => true | _ :: _ => false end.
+Definition gj_opt_isnil {T : Type} (o : option T) : bool := match o with None => true | Some _ => false end.
+Definition gj_opt_or {T : Type} (o : option T) (d : T) : T := match o with Some x => x | None => d end.
+(* x[i]; x[i] = v; make([]T, n) *)
+Definition gj_list_index {T : Type} (s : list T) (i : Z) : outcome T :=
+  if i <? 0 then Panic else idx s (Z.to_nat i).
+Definition gj_list_set {T : Type} (s : list T) (i : Z) (v : T) : outcome (list T) :=
+  if i <? 0 then Panic else if (Z.to_nat i <? length s)%nat then Ok (set_nth s (Z.to_nat i) v) else Panic.
+Definition gj_make {T : Type} (z : T) (n : Z) : outcome (list T) :=
+  if n <? 0 then Panic else Ok (repeat z (Z.to_nat n)).
+(* maps as association lists: m[k] (the first pair for k), m[k] = v, the pairs in list order *)
+Fixpoint gj_assoc_lookup {V : Type} (l : list (bytes * V)) (k : bytes) : option V :=
+  match l with
+  | [] => None
+  | (k', v) :: l' => if bytes_eqb k' k then Some v else gj_assoc_lookup l' k
+  end.
+Fixpoint gj_assoc_set {V : Type} (l : list (bytes * V)) (k : bytes) (v : V) : list (bytes * V) :=
+  match l with
+  | [] => [(k, v)]
+  | (k', v') :: l' => if bytes_eqb k' k then (k', v) :: l' else (k', v') :: gj_assoc_set l' k v
+  end.
+Definition gj_map_lookup {V : Type} (m : option (list (bytes * V))) (k : bytes) : option V :=
+  match m with Some l => gj_assoc_lookup l k | None => None end.
+Definition gj_map_set {V : Type} (m : option (list (bytes * V))) (k : bytes) (v : V) : outcome (option (list (bytes * V))) :=
+  match m with Some l => Ok (Some (gj_assoc_set l k v)) | None => Panic end.
+Definition gj_map_entries {V : Type} (m : option (list (bytes * V))) : list (bytes * V) :=
+  match m with Some l => l | None => [] end.
+Definition gj_map_len {V : Type} (m : option (list (bytes * V))) : Z := Z.of_nat (length (gj_map_entries m)).
+(* v, ok := t.(T) *)
+Definition gj_assert_int (t : gj_any) : Z * bool := match t with gj_any_int z => (z, true) | _ => (0, false) end.
+Definition gj_assert_float64 (t : gj_any) : N * bool := match t with gj_any_float64 b => (b, true) | _ => (0%N, false) end.
+Definition gj_assert_bool (t : gj_any) : bool * bool := match t with gj_any_bool b => (b, true) | _ => (false, false) end.
+Definition gj_assert_string (t : gj_any) : bytes * bool := match t with gj_any_string s => (s, true) | _ => ([], false) end.
+
+Section GenIoJson.
+Context {Rd Dec Q CF : Type}.
+Variable json_NewDecoder : Rd -> Dec.
+Variable json_Decode : Dec -> list (option (list (bytes * gj_any))) -> gj_error * Dec * list (option (list (bytes * gj_any))).
+Variable qf_New : option (list (bytes * newdata)) -> CF -> outcome Q.
+Variable qf_Err : gj_error -> Q.
+
+`
+
+// ------------------------------------------------------------------ types
+
+type gjT struct {
+	k    string // int bool str float any err optstr list map data reader decoder qframe conf const nil bad
+	elem *gjT
+	val  *big.Rat
+}
+
+var (
+	gjInt     = &gjT{k: "int"}
+	gjBool    = &gjT{k: "bool"}
+	gjStr     = &gjT{k: "str"}
+	gjFloat   = &gjT{k: "float"}
+	gjAny     = &gjT{k: "any"}
+	gjData    = &gjT{k: "data"}
+	gjErr     = &gjT{k: "err"}
+	gjOptStr  = &gjT{k: "optstr"}
+	gjReader  = &gjT{k: "reader"}
+	gjDecoder = &gjT{k: "decoder"}
+	gjQFrame  = &gjT{k: "qframe"}
+	gjConf    = &gjT{k: "conf"}
+	gjNil     = &gjT{k: "nil"}
+	gjBad     = &gjT{k: "bad"}
+)
+
+func gjList(e *gjT) *gjT { return &gjT{k: "list", elem: e} }
+func gjMap(e *gjT) *gjT  { return &gjT{k: "map", elem: e} }
+
+func (t *gjT) same(u *gjT) bool {
+	if t.k != u.k {
+		return false
+	}
+	if t.elem != nil || u.elem != nil {
+		return t.elem != nil && u.elem != nil && t.elem.same(u.elem)
+	}
+	return true
+}
+
+func (t *gjT) name() string {
+	switch t.k {
+	case "list":
+		return "[]" + t.elem.name()
+	case "map":
+		return "map of " + t.elem.name()
+	}
+	return t.k
+}
+
+func (t *gjT) coq() string {
+	switch t.k {
+	case "int":
+		return "Z"
+	case "bool":
+		return "bool"
+	case "str":
+		return "bytes"
+	case "float":
+		return "N"
+	case "any":
+		return "gj_any"
+	case "data":
+		return "newdata"
+	case "err":
+		return "gj_error"
+	case "optstr":
+		return "(option bytes)"
+	case "list":
+		return "(list " + t.elem.coq() + ")"
+	case "map":
+		return "(option (list (bytes * " + t.elem.coq() + ")))"
+	case "reader":
+		return "Rd"
+	case "decoder":
+		return "Dec"
+	case "qframe":
+		return "Q"
+	case "conf":
+		return "CF"
+	}
+	return "BAD"
+}
+
+func (t *gjT) zero() (string, bool) {
+	switch t.k {
+	case "int":
+		return "0", true
+	case "bool":
+		return "false", true
+	case "str":
+		return "(@nil N)", true
+	case "float":
+		return "0%N", true
+	case "any":
+		return "gj_any_nil", true
+	case "err":
+		return "gj_nil", true
+	case "optstr", "map":
+		return "None", true
+	case "list":
+		return "(@nil " + t.elem.coq() + ")", true
+	}
+	return "BAD", false
+}
+
+// the constructor of newdata for a slice stored into a data place
+func gjDataCon(t *gjT) string {
+	if t.k != "list" {
+		return ""
+	}
+	switch t.elem.k {
+	case "int":
+		return "DInts"
+	case "float":
+		return "DFloats"
+	case "bool":
+		return "DBools"
+	case "optstr":
+		return "DStrPtrs"
+	case "str":
+		return "DStrings"
+	}
+	return ""
+}
+
+// the named types of the package (type T ..), filled by gjLoadTypes
+var gjTypeDecls map[string]ast.Expr
+
+func gjLoadTypes(p *pkgInfo) {
+	gjTypeDecls = map[string]ast.Expr{}
+	for _, f := range p.files {
+		for _, d := range f.Decls {
+			gd, ok := d.(*ast.GenDecl)
+			if !ok || gd.Tok != token.TYPE {
+				continue
+			}
+			for _, s := range gd.Specs {
+				ts := s.(*ast.TypeSpec)
+				gjTypeDecls[ts.Name.Name] = ts.Type
+			}
+		}
+	}
+}
+
+// gjResolve maps a Go type expression to a translation type; place is a named type / "func.var" / "func.resultN".
+// root: the expression stands in the root package (where the named types of internal/io are not visible).
+func gjResolve(p *pkgInfo, e ast.Expr, place string, root bool) *gjT {
+	switch x := e.(type) {
+	case *ast.ParenExpr:
+		return gjResolve(p, x.X, place, root)
+	case *ast.Ident:
+		switch x.Name {
+		case "int":
+			return gjInt
+		case "bool":
+			return gjBool
+		case "string":
+			return gjStr
+		case "float64":
+			return gjFloat
+		case "error":
+			return gjErr
+		case "any":
+			switch gjPlaces[place] {
+			case "any":
+				return gjAny
+			case "data":
+				return gjData
+			}
+			return gjBad
+		case "QFrame":
+			if root {
+				return gjQFrame
+			}
+			return gjBad
+		}
+		if !root {
+			if d, ok := gjTypeDecls[x.Name]; ok {
+				if _, isStruct := d.(*ast.StructType); !isStruct {
+					return gjResolve(p, d, x.Name, root)
+				}
+			}
+		}
+	case *ast.InterfaceType:
+		if x.Methods == nil || len(x.Methods.List) == 0 {
+			switch gjPlaces[place] {
+			case "any":
+				return gjAny
+			case "data":
+				return gjData
+			}
+		}
+	case *ast.ArrayType:
+		if x.Len == nil {
+			el := gjResolve(p, x.Elt, place, root)
+			if el.k != "bad" {
+				return gjList(el)
+			}
+		}
+	case *ast.MapType:
+		if id, ok := x.Key.(*ast.Ident); ok && id.Name == "string" {
+			el := gjResolve(p, x.Value, place, root)
+			if el.k != "bad" {
+				return gjMap(el)
+			}
+		}
+	case *ast.StarExpr:
+		if id, ok := x.X.(*ast.Ident); ok && id.Name == "string" {
+			return gjOptStr
+		}
+	case *ast.SelectorExpr:
+		switch ggSelName(x) {
+		case "io.Reader":
+			return gjReader
+		}
+	case *ast.Ellipsis:
+		if ggSelName(x.Elt) == "newqf.ConfigFunc" && root {
+			return gjConf
+		}
+	}
+	return gjBad
+}
+
+// ------------------------------------------------------------------ translation context
+
+type gjVar struct {
+	name  string
+	t     *gjT
+	local bool // a range / type switch variable: may not be assigned
+	depth int  // the block it was declared in
+}
+
+type gjFunc struct {
+	goName    string
+	coq       string
+	root      bool
+	p         *pkgInfo
+	fd        *ast.FuncDecl
+	params    []gjVar
+	results   []*gjT
+	outs      []gjVar
+	needsFuel bool
+	done      bool
+	ok        bool
+	text      string
+}
+
+var gjFuncs map[string]*gjFunc
+
+type gjCtx struct {
+	vars  []gjVar
+	depth int
+	brk   func() string
+	cont  func() string
+	retv  func(tuple string) string
+}
+
+type gjTr struct {
+	p     *pkgInfo
+	f     *gjFunc
+	loops []string
+	bad   bool
+	ntmp  int
+	nrec  int
+}
+
+func (t *gjTr) fail(n ast.Node, format string, a ...interface{}) {
+	pos := ""
+	if n != nil {
+		pos = t.p.fset.Position(n.Pos()).String() + ": "
+	}
+	problem("internal/io json translation, function %s: %s%s", t.f.goName, pos, fmt.Sprintf(format, a...))
+	t.bad = true
+}
+
+func (t *gjTr) src(n ast.Node) string { return ggSrc(t.p.fset, n) }
+
+func (t *gjTr) tmp() string {
+	t.ntmp++
+	return fmt.Sprintf("t%d", t.ntmp)
+}
+
+func (c gjCtx) lookup(name string) (gjVar, bool) {
+	for i := len(c.vars) - 1; i >= 0; i-- {
+		if c.vars[i].name == name {
+			return c.vars[i], true
+		}
+	}
+	return gjVar{}, false
+}
+
+func (c gjCtx) deeper() gjCtx {
+	c.depth++
+	return c
+}
+
+func gjRootOf(e ast.Expr) string {
+	switch x := e.(type) {
+	case *ast.Ident:
+		return x.Name
+	case *ast.IndexExpr:
+		return gjRootOf(x.X)
+	case *ast.ParenExpr:
+		return gjRootOf(x.X)
+	case *ast.StarExpr:
+		return gjRootOf(x.X)
+	case *ast.UnaryExpr:
+		if x.Op == token.AND {
+			return gjRootOf(x.X)
+		}
+	}
+	return ""
+}
+
+// the alias under which the file of fd imports internal/io ("" when it does not)
+func gjIoAlias(p *pkgInfo, fd *ast.FuncDecl) string {
+	for _, f := range p.files {
+		if f.Pos() <= fd.Pos() && fd.End() <= f.End() {
+			for _, im := range f.Imports {
+				if path, err := strconv.Unquote(im.Path.Value); err == nil && path == gjImportPath {
+					if im.Name != nil {
+						return im.Name.Name
+					}
+					return "io"
+				}
+			}
+		}
+	}
+	return ""
+}
+
+var _ = flag.Lookup
+var _ = os.ReadFile
+var _ = filepath.Join
+
+// ------------------------------------------------------------------ expressions
+
+func gjRatText(v *big.Rat) string {
+	if v.Sign() < 0 {
+		return "(" + v.Num().String() + ")"
+	}
+	return v.Num().String()
+}
+
+// coerce an untyped constant / nil to the wanted type; a slice to a data place
+func (t *gjTr) coerce(n ast.Node, text string, ty *gjT, want *gjT) (string, *gjT) {
+	switch ty.k {
+	case "nil":
+		switch want.k {
+		case "err", "optstr", "map", "list", "any":
+			z, _ := want.zero()
+			return z, want
+		}
+		t.fail(n, "nil in a context of type %s", want.name())
+		return text, want
+	case "const":
+		if !ty.val.IsInt() {
+			t.fail(n, "constant %s is not an integer", ty.val.String())
+			return "0", want
+		}
+		if want.k == "int" {
+			return gjRatText(ty.val), want
+		}
+		t.fail(n, "constant %s in a context of type %s", ty.val.String(), want.name())
+		return "0", want
+	case "list":
+		if want.k == "data" {
+			if con := gjDataCon(ty); con != "" {
+				return "(" + con + " " + text + ")", want
+			}
+			t.fail(n, "a %s stored where qframe.New takes its data: no constructor of newdata", ty.name())
+			return "DOther", want
+		}
+	}
+	return text, ty
+}
+
+// the arguments of qerrors.New / qerrors.Propagate only build a message
+func (t *gjTr) messageArg(e ast.Expr, c gjCtx) bool {
+	switch x := e.(type) {
+	case *ast.BasicLit:
+		return true
+	case *ast.Ident:
+		_, ok := c.lookup(x.Name)
+		return ok
+	case *ast.CallExpr:
+		if se, ok := x.Fun.(*ast.SelectorExpr); ok && len(x.Args) == 0 && se.Sel.Name == "Error" {
+			if id, ok := se.X.(*ast.Ident); ok {
+				if v, ok := c.lookup(id.Name); ok && v.t.k == "err" {
+					return true
+				}
+			}
+		}
+	}
+	return false
+}
+
+// expr translates an expression; operations that can panic are bound in *pre.
+func (t *gjTr) expr(e ast.Expr, c gjCtx, pre *[]string) (string, *gjT) {
+	switch x := e.(type) {
+	case *ast.ParenExpr:
+		return t.expr(x.X, c, pre)
+	case *ast.BasicLit:
+		switch x.Kind {
+		case token.INT, token.CHAR:
+			if v, ok := evalConst(t.p, x); ok {
+				return "", &gjT{k: "const", val: v}
+			}
+		case token.STRING:
+			if s, err := strconv.Unquote(x.Value); err == nil {
+				return coqBytes(s), gjStr
+			}
+		}
+	case *ast.Ident:
+		if v, ok := c.lookup(x.Name); ok {
+			return "v_" + v.name, v.t
+		}
+		switch x.Name {
+		case "true", "false":
+			return x.Name, gjBool
+		case "nil":
+			return "", gjNil
+		}
+		if ce, ok := t.p.consts[x.Name]; ok {
+			if v, ok := evalConst(t.p, ce); ok {
+				return "", &gjT{k: "const", val: v}
+			}
+		}
+		t.fail(e, "unknown identifier %s", x.Name)
+		return "0", gjBad
+	case *ast.IndexExpr:
+		a, ta := t.expr(x.X, c, pre)
+		i, ti := t.expr(x.Index, c, pre)
+		switch ta.k {
+		case "list":
+			i, ti = t.coerce(x.Index, i, ti, gjInt)
+			if ti.k != "int" {
+				t.fail(e, "index of type %s", ti.name())
+				return "0", gjBad
+			}
+			tmp := t.tmp()
+			*pre = append(*pre, "do "+tmp+" <- gj_list_index "+a+" "+i+";\n")
+			return tmp, ta.elem
+		case "map":
+			if z, ok := ta.elem.zero(); ok && ti.k == "str" {
+				return "(gj_opt_or (gj_map_lookup " + a + " " + i + ") " + z + ")", ta.elem
+			}
+		}
+		t.fail(e, "indexing a %s here", ta.name())
+		return "0", gjBad
+	case *ast.UnaryExpr:
+		switch x.Op {
+		case token.NOT:
+			a, ta := t.expr(x.X, c, pre)
+			if ta.k == "bool" {
+				return "(negb " + a + ")", gjBool
+			}
+		case token.AND:
+			a, ta := t.expr(x.X, c, pre)
+			if ta.k == "str" {
+				if _, isVar := x.X.(*ast.Ident); isVar {
+					return "(Some " + a + ")", gjOptStr
+				}
+			}
+		}
+	case *ast.BinaryExpr:
+		return t.binary(x, c, pre)
+	case *ast.CompositeLit:
+		return t.composite(x, c, pre, "")
+	case *ast.CallExpr:
+		return t.call(x, c, pre)
+	}
+	t.fail(e, "expression not understood: %s", t.src(e))
+	return "0", gjBad
+}
+
+// composite literals: an empty map (place: where its interface{} values go), QFrame{Err: err}
+func (t *gjTr) composite(cl *ast.CompositeLit, c gjCtx, pre *[]string, place string) (string, *gjT) {
+	if _, isMap := cl.Type.(*ast.MapType); isMap {
+		mt := gjResolve(t.p, cl.Type, place, t.f.root)
+		if mt.k == "map" && len(cl.Elts) == 0 {
+			return "(Some (@nil (bytes * " + mt.elem.coq() + ")))", mt
+		}
+		t.fail(cl, "only an empty map literal (in a place whose value type is understood) is translated")
+		return "None", gjBad
+	}
+	if id, ok := cl.Type.(*ast.Ident); ok && id.Name == "QFrame" && t.f.root && len(cl.Elts) == 1 {
+		if kv, ok := cl.Elts[0].(*ast.KeyValueExpr); ok {
+			if k, ok := kv.Key.(*ast.Ident); ok && k.Name == "Err" {
+				a, ta := t.expr(kv.Value, c, pre)
+				if ta.k == "err" {
+					return "(qf_Err " + a + ")", gjQFrame
+				}
+			}
+		}
+	}
+	t.fail(cl, "composite literal that is not understood: %s", t.src(cl))
+	return "0", gjBad
+}
+
+func (t *gjTr) binary(x *ast.BinaryExpr, c gjCtx, pre *[]string) (string, *gjT) {
+	if x.Op == token.LAND || x.Op == token.LOR {
+		a, ta := t.expr(x.X, c, pre)
+		var preB []string
+		b, tb := t.expr(x.Y, c, &preB)
+		if ta.k != "bool" || tb.k != "bool" || len(preB) != 0 {
+			t.fail(x, "%s on operands that are not conditions (or whose right operand can panic)", x.Op)
+			return "false", gjBool
+		}
+		if x.Op == token.LAND {
+			return "(if " + a + " then " + b + " else false)", gjBool
+		}
+		return "(if " + a + " then true else " + b + ")", gjBool
+	}
+	a, ta := t.expr(x.X, c, pre)
+	b, tb := t.expr(x.Y, c, pre)
+	if ta.k == "const" && tb.k == "const" {
+		var v *big.Rat
+		switch x.Op {
+		case token.ADD:
+			v = new(big.Rat).Add(ta.val, tb.val)
+		case token.SUB:
+			v = new(big.Rat).Sub(ta.val, tb.val)
+		case token.MUL:
+			v = new(big.Rat).Mul(ta.val, tb.val)
+		}
+		if v != nil {
+			return "", &gjT{k: "const", val: v}
+		}
+		t.fail(x, "constant expression not understood: %s", t.src(x))
+		return "0", gjBad
+	}
+	if ta.k == "const" || ta.k == "nil" {
+		a, ta = t.coerce(x.X, a, ta, tb)
+	} else if tb.k == "const" || tb.k == "nil" {
+		b, tb = t.coerce(x.Y, b, tb, ta)
+	}
+	neg := func(s string) string {
+		if x.Op == token.NEQ {
+			return "(negb " + s + ")"
+		}
+		return s
+	}
+	isEq := x.Op == token.EQL || x.Op == token.NEQ
+	nilY := ggIsIdent(x.Y, "nil")
+	if _, shadowed := c.lookup("nil"); shadowed {
+		nilY = false
+	}
+	if isEq && nilY && ta.same(tb) {
+		switch ta.k {
+		case "err":
+			return neg("(gj_error_isnil " + a + ")"), gjBool
+		case "any":
+			return neg("(gj_any_isnil " + a + ")"), gjBool
+		case "list":
+			return neg("(gj_isnil " + a + ")"), gjBool
+		case "map", "optstr":
+			return neg("(gj_opt_isnil " + a + ")"), gjBool
+		}
+	}
+	if ta.k == "int" && tb.k == "int" {
+		switch x.Op {
+		case token.ADD:
+			return "(" + a + " + " + b + ")", ta
+		case token.SUB:
+			return "(" + a + " - " + b + ")", ta
+		case token.LSS:
+			return "(" + a + " <? " + b + ")", gjBool
+		case token.LEQ:
+			return "(" + a + " <=? " + b + ")", gjBool
+		case token.GTR:
+			return "(" + b + " <? " + a + ")", gjBool
+		case token.GEQ:
+			return "(" + b + " <=? " + a + ")", gjBool
+		case token.EQL, token.NEQ:
+			return neg("(" + a + " =? " + b + ")"), gjBool
+		}
+	}
+	if isEq && ta.same(tb) {
+		switch ta.k {
+		case "str":
+			return neg("(bytes_eqb " + a + " " + b + ")"), gjBool
+		case "bool":
+			return neg("(Bool.eqb " + a + " " + b + ")"), gjBool
+		}
+	}
+	if x.Op == token.ADD && ta.k == "str" && tb.k == "str" {
+		return "(" + a + " ++ " + b + ")", gjStr
+	}
+	t.fail(x, "operator %s on %s and %s is not understood", x.Op, ta.name(), tb.name())
+	return "0", gjBad
+}
+
+// call: calls that are plain expressions; calls that change state are statements (callStmt)
+func (t *gjTr) call(x *ast.CallExpr, c gjCtx, pre *[]string) (string, *gjT) {
+	if id, ok := x.Fun.(*ast.Ident); ok {
+		if _, isVar := c.lookup(id.Name); isVar {
+			t.fail(x, "call of the variable %s is not understood", id.Name)
+			return "0", gjBad
+		}
+		switch id.Name {
+		case "len":
+			if len(x.Args) == 1 {
+				a, ta := t.expr(x.Args[0], c, pre)
+				switch ta.k {
+				case "list", "str":
+					return "(Z.of_nat (length " + a + "))", gjInt
+				case "map":
+					return "(gj_map_len " + a + ")", gjInt
+				}
+			}
+		case "make":
+			if len(x.Args) == 2 {
+				ty := gjResolve(t.p, x.Args[0], "", t.f.root)
+				n, tn := t.expr(x.Args[1], c, pre)
+				n, tn = t.coerce(x.Args[1], n, tn, gjInt)
+				if ty.k == "list" && tn.k == "int" {
+					if z, ok := ty.elem.zero(); ok {
+						tmp := t.tmp()
+						*pre = append(*pre, "do "+tmp+" <- gj_make "+z+" "+n+";\n")
+						return tmp, ty
+					}
+				}
+			}
+		case "int":
+			if len(x.Args) == 1 {
+				a, ta := t.expr(x.Args[0], c, pre)
+				a, ta = t.coerce(x.Args[0], a, ta, gjInt)
+				if ta.k == "int" {
+					return a, gjInt
+				}
+			}
+		case "string":
+			if len(x.Args) == 1 {
+				a, ta := t.expr(x.Args[0], c, pre)
+				if ta.k == "str" {
+					return a, gjStr
+				}
+			}
+		}
+	}
+	switch ggSelName(x.Fun) {
+	case "qerrors.New", "qerrors.Propagate":
+		if _, sh := c.lookup("qerrors"); !sh {
+			for _, a := range x.Args {
+				if !t.messageArg(a, c) {
+					t.fail(a, "argument of %s of a shape that is not understood: %s", ggSelName(x.Fun), t.src(a))
+				}
+			}
+			return "gj_err", gjErr
+		}
+	}
+	t.fail(x, "call not understood (a call that changes state may only stand as a statement, a whole right-hand side, a whole condition or the only returned value): %s", t.src(x))
+	return "0", gjBad
+}
+
+// ------------------------------------------------------------------ statements
+
+func gjTupleOrUnit(parts []string) string {
+	if len(parts) == 0 {
+		return "tt"
+	}
+	return ggTuple(parts)
+}
+
+func gjTypeTupleOrUnit(parts []string) string {
+	if len(parts) == 0 {
+		return "unit"
+	}
+	return ggTypeTuple(parts)
+}
+
+func gjVarNames(vs []gjVar) []string {
+	var out []string
+	for _, v := range vs {
+		out = append(out, "v_"+v.name)
+	}
+	return out
+}
+
+func gjVarTypes(vs []gjVar) []string {
+	var out []string
+	for _, v := range vs {
+		out = append(out, v.t.coq())
+	}
+	return out
+}
+
+// declare a new variable; reuse: the statement is x, y := .. (a variable of the very same block is assigned)
+func (t *gjTr) declare(n ast.Node, c *gjCtx, name string, ty *gjT, reuse bool) {
+	if ty.k == "const" || ty.k == "nil" || ty.k == "bad" {
+		t.fail(n, "variable %s of a type that is not understood", name)
+		ty = gjInt
+	}
+	if v, dup := c.lookup(name); dup {
+		if reuse && v.depth == c.depth && !v.local && v.t.same(ty) {
+			return
+		}
+		t.fail(n, "%s shadows / redeclares a variable", name)
+	}
+	if _, isFn := gjFuncs[name]; isFn {
+		t.fail(n, "%s shadows a function", name)
+	}
+	switch name {
+	case "qerrors", "json", "len", "make", "int", "string", "nil", "true", "false", "New", "QFrame", "any", gjIoAlias(t.p, t.f.fd):
+		t.fail(n, "%s shadows a name of the vocabulary", name)
+	}
+	cp := *ty
+	vars := append([]gjVar{}, c.vars...)
+	c.vars = append(vars, gjVar{name: name, t: &cp, depth: c.depth})
+}
+
+// store: the statement(s) that give the place lhs the value val.
+func (t *gjTr) store(lhs ast.Expr, val string, tv *gjT, c *gjCtx, pre *[]string) string {
+	switch x := lhs.(type) {
+	case *ast.ParenExpr:
+		return t.store(x.X, val, tv, c, pre)
+	case *ast.Ident:
+		if x.Name == "_" {
+			return ""
+		}
+		v, ok := c.lookup(x.Name)
+		if !ok {
+			t.fail(lhs, "unknown variable %s", x.Name)
+			return ""
+		}
+		if v.local {
+			t.fail(lhs, "assignment to the range / type switch variable %s", x.Name)
+		}
+		val, tv = t.coerce(lhs, val, tv, v.t)
+		if !tv.same(v.t) {
+			t.fail(lhs, "assignment to %s: a %s where a %s is expected", x.Name, tv.name(), v.t.name())
+		}
+		return "let v_" + x.Name + " := " + val + " in\n"
+	case *ast.IndexExpr:
+		if _, plain := x.X.(*ast.Ident); !plain {
+			t.fail(lhs, "element assignment to something that is not a plain variable")
+			return ""
+		}
+		a, ta := t.expr(x.X, *c, pre)
+		k, tk := t.expr(x.Index, *c, pre)
+		switch ta.k {
+		case "list":
+			k, tk = t.coerce(x.Index, k, tk, gjInt)
+			val, tv = t.coerce(lhs, val, tv, ta.elem)
+			if tk.k != "int" || !tv.same(ta.elem) {
+				t.fail(lhs, "element assignment: a %s at an index of type %s of a %s", tv.name(), tk.name(), ta.name())
+				return ""
+			}
+			tmp := t.tmp()
+			return "do " + tmp + " <- gj_list_set " + a + " " + k + " " + val + ";\n" + t.store(x.X, tmp, ta, c, pre)
+		case "map":
+			val, tv = t.coerce(lhs, val, tv, ta.elem)
+			if tk.k != "str" || !tv.same(ta.elem) {
+				t.fail(lhs, "map assignment: a %s under a key of type %s of a %s", tv.name(), tk.name(), ta.name())
+				return ""
+			}
+			tmp := t.tmp()
+			return "do " + tmp + " <- gj_map_set " + a + " " + k + " " + val + ";\n" + t.store(x.X, tmp, ta, c, pre)
+		}
+		t.fail(lhs, "index assignment to a %s", ta.name())
+		return ""
+	}
+	t.fail(lhs, "assignment to %s", t.src(lhs))
+	return ""
+}
+
+// callStmt: a call that changes state or can panic (a translated function, the decoder, qframe.New) with the
+// stores of its outs.  Answers the text (ending in a newline), the temporaries holding the Go results, their types.
+func (t *gjTr) callStmt(ce *ast.CallExpr, c *gjCtx) (string, []string, []*gjT, bool) {
+	var pre []string
+	type back struct {
+		lval ast.Expr
+		ty   *gjT
+		tmp  string
+	}
+	var backs []back
+	var head string
+	var resT []*gjT
+	monadic := true
+	translated := func(g *gjFunc) {
+		if g == t.f {
+			t.fail(ce, "recursion")
+		} else if !g.done {
+			t.fail(ce, "%s is called before it is translated (order of gjSpecs)", g.goName)
+		}
+		parts := []string{g.coq}
+		if g.needsFuel {
+			parts = append(parts, "fuel'")
+		}
+		if len(ce.Args) != len(g.params) || ce.Ellipsis != token.NoPos {
+			t.fail(ce, "%s takes %d arguments", g.goName, len(g.params))
+		} else {
+			for i, a := range ce.Args {
+				want := g.params[i].t
+				txt, ty := t.expr(a, *c, &pre)
+				txt, ty = t.coerce(a, txt, ty, want)
+				if !ty.same(want) {
+					t.fail(a, "argument of type %s where %s expects %s", ty.name(), g.goName, want.name())
+				}
+				parts = append(parts, txt)
+				for _, o := range g.outs {
+					if o.name == g.params[i].name {
+						if _, plain := a.(*ast.Ident); !plain {
+							t.fail(a, "a slice that %s writes to must be passed as a plain variable", g.goName)
+						}
+						backs = append(backs, back{lval: a, ty: want})
+					}
+				}
+			}
+		}
+		head = strings.Join(parts, " ")
+		resT = g.results
+	}
+	switch fn := ce.Fun.(type) {
+	case *ast.Ident:
+		if _, shadowed := c.lookup(fn.Name); shadowed {
+			return "", nil, nil, false
+		}
+		if fn.Name == "New" && t.f.root {
+			if len(ce.Args) != 2 || ce.Ellipsis == token.NoPos {
+				t.fail(ce, "New(data, confFuncs...) is expected")
+				return "Panic\n", nil, nil, true
+			}
+			a, ta := t.expr(ce.Args[0], *c, &pre)
+			b, tb := t.expr(ce.Args[1], *c, &pre)
+			if !ta.same(gjMap(gjData)) || tb.k != "conf" {
+				t.fail(ce, "New applied to a %s and a %s", ta.name(), tb.name())
+			}
+			head, resT = "qf_New "+a+" "+b, []*gjT{gjQFrame}
+			break
+		}
+		g, ok := gjFuncs[fn.Name]
+		if !ok || g.root != t.f.root {
+			return "", nil, nil, false
+		}
+		translated(g)
+	case *ast.SelectorExpr:
+		sn := ggSelName(fn)
+		if id, ok := fn.X.(*ast.Ident); ok {
+			if _, isVar := c.lookup(id.Name); !isVar {
+				if sn == "json.NewDecoder" && !t.f.root {
+					if len(ce.Args) != 1 {
+						return "", nil, nil, false
+					}
+					a, ta := t.expr(ce.Args[0], *c, &pre)
+					if ta.k != "reader" {
+						t.fail(ce, "json.NewDecoder of a %s", ta.name())
+					}
+					head, resT, monadic = "json_NewDecoder "+a, []*gjT{gjDecoder}, false
+					break
+				}
+				if t.f.root && id.Name == gjIoAlias(t.p, t.f.fd) {
+					if g, ok := gjFuncs[fn.Sel.Name]; ok && !g.root {
+						translated(g)
+						break
+					}
+				}
+				return "", nil, nil, false
+			}
+		}
+		var p0 []string
+		rx, tr := t.expr(fn.X, *c, &p0)
+		if tr.k != "decoder" || len(p0) != 0 {
+			return "", nil, nil, false
+		}
+		if fn.Sel.Name != "Decode" || len(ce.Args) != 1 {
+			t.fail(ce, "method %s of the decoder is not understood", fn.Sel.Name)
+			return "Panic\n", nil, nil, true
+		}
+		u, ok := ce.Args[0].(*ast.UnaryExpr)
+		if !ok || u.Op != token.AND {
+			t.fail(ce, "Decode(&v) with a variable v is expected")
+			return "Panic\n", nil, nil, true
+		}
+		if _, plain := u.X.(*ast.Ident); !plain {
+			t.fail(ce, "Decode(&v) with a variable v is expected")
+			return "Panic\n", nil, nil, true
+		}
+		a, ta := t.expr(u.X, *c, &pre)
+		if !ta.same(gjList(gjMap(gjAny))) {
+			t.fail(ce, "Decode into a %s: only JSONRecords is understood", ta.name())
+		}
+		head, resT, monadic = "json_Decode "+rx+" "+a, []*gjT{gjErr}, false
+		backs = append(backs, back{lval: fn.X, ty: gjDecoder}, back{lval: u.X, ty: ta})
+	default:
+		return "", nil, nil, false
+	}
+	var pat, res []string
+	for range resT {
+		tmp := t.tmp()
+		pat = append(pat, tmp)
+		res = append(res, tmp)
+	}
+	for i := range backs {
+		backs[i].tmp = t.tmp()
+		pat = append(pat, backs[i].tmp)
+	}
+	text := strings.Join(pre, "")
+	if monadic {
+		text += "do " + gjTupleOrUnit(pat) + " <- " + head + ";\n"
+	} else if len(pat) == 1 {
+		text += "let " + pat[0] + " := " + head + " in\n"
+	} else {
+		text += "let '" + gjTupleOrUnit(pat) + " := " + head + " in\n"
+	}
+	for i := len(backs) - 1; i >= 0; i-- {
+		bk := backs[i]
+		var p2 []string
+		text += t.store(bk.lval, bk.tmp, bk.ty, c, &p2)
+		if len(p2) != 0 {
+			t.fail(ce, "storing back the result of the call needs an operation that can panic")
+		}
+	}
+	return text, res, resT, true
+}
+
+// simple: a statement without control flow, as a prefix "let .. in\n" / "do .. <- ..;\n"
+func (t *gjTr) simple(st ast.Stmt, c *gjCtx) (string, bool) {
+	var pre []string
+	wrap := func(s string) string { return strings.Join(pre, "") + s }
+	switch x := st.(type) {
+	case *ast.DeclStmt:
+		gd, ok := x.Decl.(*ast.GenDecl)
+		if !ok || gd.Tok != token.VAR {
+			return "", false
+		}
+		text := ""
+		for _, sp := range gd.Specs {
+			vs := sp.(*ast.ValueSpec)
+			if vs.Type == nil || len(vs.Values) != 0 {
+				t.fail(st, "only `var x T` is understood")
+				return "", true
+			}
+			for _, n := range vs.Names {
+				ty := gjResolve(t.p, vs.Type, t.f.goName+"."+n.Name, t.f.root)
+				z, ok := ty.zero()
+				if ty.k == "bad" || !ok {
+					t.fail(st, "variable %s has a type that is not understood: %s", n.Name, t.src(vs.Type))
+					return "", true
+				}
+				t.declare(st, c, n.Name, ty, false)
+				text += "let v_" + n.Name + " := " + z + " in\n"
+			}
+		}
+		return text, true
+	case *ast.IncDecStmt:
+		a, ta := t.expr(x.X, *c, &pre)
+		if ta.k != "int" {
+			t.fail(st, "%s on a %s", x.Tok, ta.name())
+			return "", true
+		}
+		op := " + 1"
+		if x.Tok == token.DEC {
+			op = " - 1"
+		}
+		return wrap(t.store(x.X, "("+a+op+")", ta, c, &pre)), true
+	case *ast.ExprStmt:
+		ce, ok := x.X.(*ast.CallExpr)
+		if !ok {
+			return "", false
+		}
+		if text, _, _, ok := t.callStmt(ce, c); ok {
+			return text, true
+		}
+		t.fail(st, "statement not understood: %s", t.src(st))
+		return "", true
+	case *ast.AssignStmt:
+		if x.Tok != token.DEFINE && x.Tok != token.ASSIGN {
+			t.fail(st, "assignment operator %s", x.Tok)
+			return "", true
+		}
+		bind := func(text string, res []string, resT []*gjT) (string, bool) {
+			if len(res) != len(x.Lhs) {
+				t.fail(st, "%d values assigned to %d places", len(res), len(x.Lhs))
+				return "", true
+			}
+			for i, l := range x.Lhs {
+				if x.Tok == token.DEFINE {
+					id, ok := l.(*ast.Ident)
+					if !ok {
+						t.fail(st, ":= on something that is not a variable")
+						return "", true
+					}
+					if id.Name == "_" {
+						continue
+					}
+					t.declare(st, c, id.Name, resT[i], len(x.Lhs) > 1)
+					text += "let v_" + id.Name + " := " + res[i] + " in\n"
+				} else {
+					var p2 []string
+					stx := t.store(l, res[i], resT[i], c, &p2)
+					text += strings.Join(p2, "") + stx
+				}
+			}
+			return text, true
+		}
+		if len(x.Rhs) == 1 {
+			if ce, ok := x.Rhs[0].(*ast.CallExpr); ok {
+				if text, res, resT, ok := t.callStmt(ce, c); ok {
+					return bind(text, res, resT)
+				}
+			}
+			if len(x.Lhs) == 2 {
+				switch r := x.Rhs[0].(type) {
+				case *ast.TypeAssertExpr: // v, ok := t.(T)
+					a, ta := t.expr(r.X, *c, &pre)
+					if ta.k == "any" && r.Type != nil {
+						fn, ty := "", gjBad
+						switch t.src(r.Type) {
+						case "int":
+							fn, ty = "gj_assert_int", gjInt
+						case "float64":
+							fn, ty = "gj_assert_float64", gjFloat
+						case "bool":
+							fn, ty = "gj_assert_bool", gjBool
+						case "string":
+							fn, ty = "gj_assert_string", gjStr
+						}
+						if fn != "" {
+							t1, t2 := t.tmp(), t.tmp()
+							return bind(wrap("let '("+t1+", "+t2+") := "+fn+" "+a+" in\n"), []string{t1, t2}, []*gjT{ty, gjBool})
+						}
+					}
+					t.fail(st, "type assertion not understood: %s", t.src(r))
+					return "", true
+				case *ast.IndexExpr: // v, ok := m[k]
+					a, ta := t.expr(r.X, *c, &pre)
+					k, tk := t.expr(r.Index, *c, &pre)
+					if ta.k == "map" && tk.k == "str" {
+						if z, ok := ta.elem.zero(); ok {
+							t1 := t.tmp()
+							return bind(wrap("let "+t1+" := gj_map_lookup "+a+" "+k+" in\n"), []string{"(gj_opt_or " + t1 + " " + z + ")", "(negb (gj_opt_isnil " + t1 + "))"}, []*gjT{ta.elem, gjBool})
+						}
+					}
+					t.fail(st, "map lookup not understood: %s", t.src(r))
+					return "", true
+				}
+			}
+		}
+		if len(x.Rhs) != len(x.Lhs) || len(x.Lhs) != 1 {
+			t.fail(st, "assignment with %d left and %d right sides", len(x.Lhs), len(x.Rhs))
+			return "", true
+		}
+		if x.Tok == token.DEFINE {
+			id, ok := x.Lhs[0].(*ast.Ident)
+			if !ok {
+				t.fail(st, ":= on something that is not a variable")
+				return "", true
+			}
+			var a string
+			var ta *gjT
+			if cl, isLit := x.Rhs[0].(*ast.CompositeLit); isLit {
+				a, ta = t.composite(cl, *c, &pre, t.f.goName+"."+id.Name)
+			} else {
+				a, ta = t.expr(x.Rhs[0], *c, &pre)
+			}
+			if ta.k == "const" {
+				a, ta = t.coerce(x.Rhs[0], a, ta, gjInt)
+			}
+			t.declare(st, c, id.Name, ta, false)
+			return wrap("let v_" + id.Name + " := " + a + " in\n"), true
+		}
+		a, ta := t.expr(x.Rhs[0], *c, &pre)
+		if ta.k == "const" || ta.k == "nil" {
+			var p2 []string
+			_, tl := t.expr(x.Lhs[0], *c, &p2)
+			a, ta = t.coerce(x.Rhs[0], a, ta, tl)
+		}
+		var p3 []string
+		stx := t.store(x.Lhs[0], a, ta, c, &p3)
+		return wrap(strings.Join(p3, "") + stx), true
+	}
+	return "", false
+}
+
+func gjRestrict(inner, outer gjCtx) gjCtx {
+	r := outer
+	r.vars = inner.vars[:len(outer.vars)]
+	return r
+}
+
+// cond: a condition, possibly a call with side effects; answers the prefix and the boolean text
+func (t *gjTr) cond(e ast.Expr, c *gjCtx) (string, string) {
+	if ce, ok := e.(*ast.CallExpr); ok {
+		if text, res, resT, ok := t.callStmt(ce, c); ok {
+			if len(res) != 1 || resT[0].k != "bool" {
+				t.fail(e, "a call used as a condition must answer one bool")
+				return text, "false"
+			}
+			return text, res[0]
+		}
+	}
+	var pre []string
+	ct, tc := t.expr(e, *c, &pre)
+	if tc.k != "bool" {
+		t.fail(e, "a condition is expected")
+		return "", "false"
+	}
+	return strings.Join(pre, ""), ct
+}
+
+func (t *gjTr) stmts(list []ast.Stmt, c gjCtx, k func(gjCtx) string) string {
+	if len(list) == 0 {
+		return k(c)
+	}
+	st, rest := list[0], list[1:]
+	memo, have := "", false
+	next := func(c2 gjCtx) string {
+		if !have {
+			memo, have = t.stmts(rest, c2, k), true
+		}
+		return memo
+	}
+	switch x := st.(type) {
+	case *ast.ReturnStmt:
+		return t.ret(x, c)
+	case *ast.BranchStmt:
+		switch x.Tok {
+		case token.BREAK:
+			if x.Label != nil || c.brk == nil {
+				t.fail(st, "break is not understood here (with a label, inside a switch, or outside a loop)")
+				return "Panic"
+			}
+			return c.brk()
+		case token.CONTINUE:
+			if x.Label != nil || c.cont == nil {
+				t.fail(st, "continue is not understood here (with a label, or outside a loop)")
+				return "Panic"
+			}
+			return c.cont()
+		}
+		t.fail(st, "%s is not understood", x.Tok)
+		return "Panic"
+	case *ast.BlockStmt:
+		return t.stmts(x.List, c.deeper(), func(c2 gjCtx) string { return next(gjRestrict(c2, c)) })
+	case *ast.IfStmt:
+		return t.ifStmt(x, c, next)
+	case *ast.TypeSwitchStmt:
+		return t.typeSwitch(x, c, next)
+	case *ast.ForStmt:
+		return t.forStmt(x, c, next)
+	case *ast.RangeStmt:
+		return t.rangeStmt(x, c, next)
+	}
+	if text, ok := t.simple(st, &c); ok {
+		return text + next(c)
+	}
+	t.fail(st, "statement not understood: %s", t.src(st))
+	return "Panic"
+}
+
+func (t *gjTr) ifStmt(x *ast.IfStmt, c gjCtx, next func(gjCtx) string) string {
+	c1 := c.deeper()
+	initText := ""
+	if x.Init != nil {
+		txt, ok := t.simple(x.Init, &c1)
+		if !ok {
+			t.fail(x.Init, "if init statement not understood")
+		}
+		initText = txt
+	}
+	pre, ct := t.cond(x.Cond, &c1)
+	back := func(c2 gjCtx) string { return next(gjRestrict(c2, c)) }
+	thenT := t.stmts(x.Body.List, c1.deeper(), back)
+	elseT := t.stmts(ggElse(x), c1.deeper(), back)
+	return initText + pre + "if " + ct + " then\n" + gsIndent(thenT) + "\nelse\n" + gsIndent(elseT)
+}
+
+// switch v := t.(type) on a decoded value: a match on the constructor
+func (t *gjTr) typeSwitch(x *ast.TypeSwitchStmt, c gjCtx, next func(gjCtx) string) string {
+	if x.Init != nil {
+		t.fail(x, "type switch with an init statement")
+		return "Panic"
+	}
+	bound := ""
+	var ta *ast.TypeAssertExpr
+	switch a := x.Assign.(type) {
+	case *ast.AssignStmt:
+		if len(a.Lhs) == 1 && len(a.Rhs) == 1 && a.Tok == token.DEFINE {
+			bound = a.Lhs[0].(*ast.Ident).Name
+			ta, _ = a.Rhs[0].(*ast.TypeAssertExpr)
+		}
+	case *ast.ExprStmt:
+		ta, _ = a.X.(*ast.TypeAssertExpr)
+	}
+	if ta == nil || ta.Type != nil {
+		t.fail(x, "type switch not understood")
+		return "Panic"
+	}
+	var pre []string
+	scrut, ts := t.expr(ta.X, c, &pre)
+	if ts.k != "any" {
+		t.fail(x, "type switch on a %s", ts.name())
+		return "Panic"
+	}
+	type arm struct {
+		con string
+		ty  *gjT
+	}
+	arms := []arm{{"gj_any_nil", nil}, {"gj_any_bool", gjBool}, {"gj_any_float64", gjFloat}, {"gj_any_string", gjStr}, {"gj_any_int", gjInt}, {"gj_any_other", nil}}
+	byType := map[string]int{"nil": 0, "bool": 1, "float64": 2, "string": 3, "int": 4}
+	bodies := make([]*ast.CaseClause, len(arms))
+	var deflt *ast.CaseClause
+	c1 := c.deeper()
+	c1.brk = nil
+	for _, s := range x.Body.List {
+		cc := s.(*ast.CaseClause)
+		for _, b := range cc.Body {
+			if bs, ok := b.(*ast.BranchStmt); ok && bs.Tok == token.FALLTHROUGH {
+				t.fail(b, "fallthrough")
+			}
+		}
+		if cc.List == nil {
+			deflt = cc
+			continue
+		}
+		for _, ty := range cc.List {
+			i, ok := byType[t.src(ty)]
+			if !ok {
+				t.fail(cc, "a case of a type switch on a type that is not a decoded value: %s", t.src(ty))
+				continue
+			}
+			if bodies[i] != nil {
+				t.fail(cc, "duplicate case")
+			}
+			bodies[i] = cc
+		}
+	}
+	back := func(c2 gjCtx) string { return next(gjRestrict(c2, c)) }
+	var b strings.Builder
+	b.WriteString(strings.Join(pre, "") + "match " + scrut + " with\n")
+	for i, a := range arms {
+		cc := bodies[i]
+		if cc == nil {
+			cc = deflt
+		}
+		pat := a.con
+		ci := c1
+		letT := ""
+		single := cc != nil && cc != deflt && len(cc.List) == 1
+		if a.ty != nil {
+			if single && bound != "" {
+				pat += " v_" + bound
+				t.declare(cc, &ci, bound, a.ty, false)
+				ci.vars[len(ci.vars)-1].local = true
+			} else {
+				pat += " _"
+			}
+		}
+		if cc != nil && bound != "" && !(single && a.ty != nil) {
+			// several types, nil alone, or default: the variable is the value itself
+			t.declare(cc, &ci, bound, gjAny, false)
+			ci.vars[len(ci.vars)-1].local = true
+			letT = "let v_" + bound + " := " + scrut + " in\n"
+		}
+		var body string
+		if cc != nil {
+			body = letT + t.stmts(cc.Body, ci, back)
+		} else {
+			body = back(c1)
+		}
+		b.WriteString("| " + pat + " =>\n" + gsIndent(gsIndent(body)) + "\n")
+	}
+	b.WriteString("end")
+	return b.String()
+}
+
+func (t *gjTr) outsTuple(res []string) string {
+	parts := append([]string{}, res...)
+	for _, o := range t.f.outs {
+		parts = append(parts, "v_"+o.name)
+	}
+	return gjTupleOrUnit(parts)
+}
+
+func (t *gjTr) resultType() string {
+	var tys []string
+	for _, r := range t.f.results {
+		tys = append(tys, r.coq())
+	}
+	for _, o := range t.f.outs {
+		tys = append(tys, o.t.coq())
+	}
+	return gjTypeTupleOrUnit(tys)
+}
+
+func (t *gjTr) ret(x *ast.ReturnStmt, c gjCtx) string {
+	if len(x.Results) == 1 {
+		if ce, ok := x.Results[0].(*ast.CallExpr); ok {
+			if text, res, resT, ok := t.callStmt(ce, &c); ok {
+				if len(res) != len(t.f.results) {
+					t.fail(x, "return of a call with %d values, the function has %d results", len(res), len(t.f.results))
+					return "Panic"
+				}
+				for i := range res {
+					if !resT[i].same(t.f.results[i]) {
+						t.fail(x, "result %d: a %s where a %s is expected", i, resT[i].name(), t.f.results[i].name())
+					}
+				}
+				return text + c.retv(t.outsTuple(res))
+			}
+		}
+	}
+	var pre []string
+	var res []string
+	if len(x.Results) != len(t.f.results) {
+		t.fail(x, "return with %d values, the function has %d results", len(x.Results), len(t.f.results))
+		return "Panic"
+	}
+	for i, r := range x.Results {
+		a, ta := t.expr(r, c, &pre)
+		a, ta = t.coerce(r, a, ta, t.f.results[i])
+		if !ta.same(t.f.results[i]) {
+			t.fail(r, "result %d: a %s where a %s is expected", i, ta.name(), t.f.results[i].name())
+		}
+		res = append(res, a)
+	}
+	return strings.Join(pre, "") + c.retv(t.outsTuple(res))
+}
+
+// ------------------------------------------------------------------ loops
+
+// assigned: the variables of c (in order) that the nodes may change (an over-approximation).
+func (t *gjTr) assigned(c gjCtx, nodes ...ast.Node) []gjVar {
+	names := map[string]bool{}
+	mark := func(e ast.Expr) {
+		if r := gjRootOf(e); r != "" {
+			names[r] = true
+		}
+	}
+	for _, n := range nodes {
+		if n == nil {
+			continue
+		}
+		ast.Inspect(n, func(m ast.Node) bool {
+			switch x := m.(type) {
+			case *ast.AssignStmt:
+				// := may assign a variable of its own block; variables of the context around a loop are
+				// never in the block of a statement inside it, except through = / x[i] =
+				if x.Tok != token.DEFINE {
+					for _, l := range x.Lhs {
+						mark(l)
+					}
+				}
+			case *ast.IncDecStmt:
+				mark(x.X)
+			case *ast.CallExpr:
+				if se, ok := x.Fun.(*ast.SelectorExpr); ok {
+					if r := gjRootOf(se.X); r != "" {
+						if v, ok := c.lookup(r); ok && v.t.k == "decoder" {
+							names[r] = true
+						}
+					}
+				}
+				var g *gjFunc
+				switch fn := x.Fun.(type) {
+				case *ast.Ident:
+					g = gjFuncs[fn.Name]
+				case *ast.SelectorExpr:
+					g = gjFuncs[fn.Sel.Name]
+				}
+				for i, a := range x.Args {
+					if u, ok := a.(*ast.UnaryExpr); ok && u.Op == token.AND {
+						mark(u.X)
+					}
+					if g != nil && i < len(g.params) {
+						for _, o := range g.outs {
+							if o.name == g.params[i].name {
+								mark(a)
+							}
+						}
+					}
+				}
+			}
+			return true
+		})
+	}
+	var out []gjVar
+	for _, v := range c.vars {
+		if names[v.name] {
+			out = append(out, v)
+		}
+	}
+	return out
+}
+
+func gjHasReturn(body *ast.BlockStmt) bool {
+	has := false
+	ast.Inspect(body, func(m ast.Node) bool {
+		switch m.(type) {
+		case *ast.ReturnStmt:
+			has = true
+		case *ast.FuncLit:
+			return false
+		}
+		return true
+	})
+	return has
+}
+
+type gjLoop struct {
+	t       *gjTr
+	c       gjCtx // the context around the loop
+	res     []gjVar
+	hasRet  bool
+	recMark string
+	vtuple  string
+	vtype   string
+	resType string
+	exit    string
+	bodyCtx gjCtx
+}
+
+// newLoop prepares the translation of a loop: c is the context around it, c1 the context of its body
+func (t *gjTr) newLoop(c, c1 gjCtx, body *ast.BlockStmt, nodes ...ast.Node) *gjLoop {
+	l := &gjLoop{t: t, c: c}
+	l.res = t.assigned(c, nodes...)
+	l.hasRet = gjHasReturn(body)
+	t.nrec++
+	l.recMark = fmt.Sprintf("@REC%d@", t.nrec)
+	l.vtuple = gjTupleOrUnit(gjVarNames(l.res))
+	l.vtype = gjTypeTupleOrUnit(gjVarTypes(l.res))
+	cb := c1
+	cb.cont = func() string { return l.recMark }
+	if l.hasRet {
+		cb.retv = func(tp string) string { return "Ok (gj_ret " + tp + ")" }
+		l.exit = "Ok (gj_fall " + l.vtuple + ")"
+		l.resType = "(gj_flow " + t.resultType() + " " + l.vtype + ")"
+	} else {
+		l.exit = "Ok " + l.vtuple
+		l.resType = l.vtype
+	}
+	cb.brk = func() string { return l.exit }
+	l.bodyCtx = cb
+	return l
+}
+
+// finish emits the Fixpoint and answers the text of the call site followed by the rest
+func (l *gjLoop) finish(cIn gjCtx, head, structArg, matchHead, body string, firstArgs []string, recFirst []string, extra []gjVar, next func(gjCtx) string) string {
+	t := l.t
+	var ps []gjVar
+	for _, v := range cIn.vars {
+		if gsMentions(body, "v_"+v.name) {
+			ps = append(ps, v)
+		}
+	}
+	for _, r := range l.res {
+		found := false
+		for _, v := range ps {
+			if v.name == r.name {
+				found = true
+			}
+		}
+		if !found {
+			ps = append(ps, r)
+		}
+	}
+	// variables introduced by the loop head itself (range variables) are bound by the Fixpoint
+	var ps2 []gjVar
+	for _, v := range ps {
+		skip := false
+		for _, e := range extra {
+			if e.name == v.name {
+				skip = true
+			}
+		}
+		if !skip {
+			ps2 = append(ps2, v)
+		}
+	}
+	ps = ps2
+	name := fmt.Sprintf("%s_loop%d", t.f.coq, len(t.loops)+1)
+	var sig, recArgs, callArgs []string
+	if gsMentions(body, "fuel'") {
+		sig = append(sig, "(fuel' : nat)")
+		recArgs = append(recArgs, "fuel'")
+		callArgs = append(callArgs, "fuel'")
+	}
+	sig = append(sig, head)
+	recArgs = append(recArgs, recFirst...)
+	callArgs = append(callArgs, firstArgs...)
+	for _, v := range ps {
+		sig = append(sig, "(v_"+v.name+" : "+v.t.coq()+")")
+		recArgs = append(recArgs, "v_"+v.name)
+		callArgs = append(callArgs, "v_"+v.name)
+	}
+	body = strings.ReplaceAll(body, l.recMark, name+" "+strings.Join(recArgs, " "))
+	def := "Fixpoint " + name + " " + strings.Join(sig, " ") + " {struct " + structArg + "} : outcome " + l.resType + " :=\n" +
+		"  " + matchHead + "\n" + gsIndent(gsIndent(body)) + "\n  end.\n"
+	t.loops = append(t.loops, def)
+	call := name + " " + strings.Join(callArgs, " ")
+	c := l.c
+	if l.hasRet {
+		tmp, r := t.tmp(), t.tmp()
+		return "do " + tmp + " <- " + call + ";\nmatch " + tmp + " with\n| gj_fall " + l.vtuple + " =>\n" + gsIndent(next(c)) +
+			"\n| gj_ret " + r + " => " + c.retv(r) + "\nend"
+	}
+	return "do " + l.vtuple + " <- " + call + ";\n" + next(c)
+}
+
+func (t *gjTr) forStmt(x *ast.ForStmt, c gjCtx, next func(gjCtx) string) string {
+	c1 := c.deeper()
+	initText := ""
+	if x.Init != nil {
+		txt, ok := t.simple(x.Init, &c1)
+		if !ok {
+			t.fail(x.Init, "loop init statement not understood")
+		}
+		initText = txt
+	}
+	if x.Cond == nil {
+		t.fail(x, "a for loop without condition")
+		return "Panic"
+	}
+	var nodes []ast.Node
+	nodes = append(nodes, x.Body, x.Cond)
+	if x.Post != nil {
+		nodes = append(nodes, x.Post)
+	}
+	l := t.newLoop(c1, c1.deeper(), x.Body, nodes...)
+	// the Fixpoint answers the variables of c1 (the init variables too); the rest sees those of c
+	cb := l.bodyCtx
+	post := func(c2 gjCtx) string {
+		if x.Post == nil {
+			return l.recMark
+		}
+		cp := gjRestrict(c2, c1)
+		txt, ok := t.simple(x.Post, &cp)
+		if !ok {
+			t.fail(x.Post, "loop post statement not understood")
+		}
+		return txt + l.recMark
+	}
+	cb.cont = func() string { return post(cb) }
+	cc := cb
+	pre, ct := t.cond(x.Cond, &cc)
+	iter := t.stmts(x.Body.List, cc, post)
+	body := "| O => Panic\n| S k' =>\n" + gsIndent(pre+"if "+ct+" then\n"+gsIndent(iter)+"\nelse\n"+gsIndent(l.exit))
+	rest := l.finish(c1, "(k : nat)", "k", "match k with", body, []string{"fuel'"}, []string{"k'"}, nil, func(c2 gjCtx) string { return next(gjRestrict(c2, c)) })
+	return initText + rest
+}
+
+func (t *gjTr) rangeStmt(x *ast.RangeStmt, c gjCtx, next func(gjCtx) string) string {
+	if x.Tok != token.DEFINE && (x.Key != nil || x.Value != nil) {
+		t.fail(x, "range with = instead of :=")
+		return "Panic"
+	}
+	var pre []string
+	over, to := t.expr(x.X, c, &pre)
+	var elemT *gjT
+	list := over
+	isMap := false
+	switch to.k {
+	case "list":
+		elemT = to.elem
+	case "map":
+		elemT, isMap = to.elem, true
+		list = "(gj_map_entries " + over + ")"
+	default:
+		t.fail(x, "range over a %s", to.name())
+		return "Panic"
+	}
+	c1 := c.deeper()
+	keyName, valName := "", ""
+	if id, ok := x.Key.(*ast.Ident); ok && id.Name != "_" {
+		keyName = id.Name
+	}
+	if x.Value != nil {
+		if id, ok := x.Value.(*ast.Ident); ok && id.Name != "_" {
+			valName = id.Name
+		}
+	}
+	var extra []gjVar
+	keyT := gjInt
+	if isMap {
+		keyT = gjStr
+	}
+	if keyName != "" {
+		t.declare(x, &c1, keyName, keyT, false)
+		c1.vars[len(c1.vars)-1].local = true
+		extra = append(extra, c1.vars[len(c1.vars)-1])
+	}
+	if valName != "" {
+		t.declare(x, &c1, valName, elemT, false)
+		c1.vars[len(c1.vars)-1].local = true
+		extra = append(extra, c1.vars[len(c1.vars)-1])
+	}
+	l := t.newLoop(c, c1.deeper(), x.Body, x.Body)
+	cb := l.bodyCtx
+	iter := t.stmts(x.Body.List, cb, func(gjCtx) string { return l.recMark })
+	pat := "_"
+	if valName != "" {
+		pat = "v_" + valName
+	}
+	itemT := elemT.coq()
+	first, rec := []string{list}, []string{"l'"}
+	head := ""
+	if isMap {
+		kp := "_"
+		if keyName != "" {
+			kp = "v_" + keyName
+		}
+		pat = "(" + kp + ", " + pat + ")"
+		itemT = "(bytes * " + elemT.coq() + ")"
+		head = "(l : list " + itemT + ")"
+	} else {
+		head = "(l : list " + itemT + ")"
+		if keyName != "" {
+			head += " (v_" + keyName + " : Z)"
+			first = append(first, "0")
+			rec = append(rec, "(v_"+keyName+" + 1)")
+		}
+	}
+	body := "| [] => " + l.exit + "\n| " + pat + " :: l' =>\n" + gsIndent(iter)
+	return strings.Join(pre, "") + l.finish(c1, head, "l", "match l with", body, first, rec, extra, next)
+}
+
+// ------------------------------------------------------------------ functions
+
+// does the body assign elements of the slice parameter name?
+func gjWritesElements(body *ast.BlockStmt, name string) bool {
+	mut := false
+	ast.Inspect(body, func(m ast.Node) bool {
+		switch x := m.(type) {
+		case *ast.AssignStmt:
+			for _, l := range x.Lhs {
+				if ix, ok := l.(*ast.IndexExpr); ok && gjRootOf(ix) == name {
+					mut = true
+				}
+			}
+		case *ast.IncDecStmt:
+			if ix, ok := x.X.(*ast.IndexExpr); ok && gjRootOf(ix) == name {
+				mut = true
+			}
+		case *ast.CallExpr:
+			var g *gjFunc
+			if id, ok := x.Fun.(*ast.Ident); ok {
+				g = gjFuncs[id.Name]
+			}
+			for i, a := range x.Args {
+				if id, ok := a.(*ast.Ident); ok && id.Name == name {
+					if g == nil || !g.done {
+						if fid, ok := x.Fun.(*ast.Ident); !ok || fid.Name != "len" {
+							mut = true // handed to something that is not understood
+						}
+					} else if i < len(g.params) {
+						for _, o := range g.outs {
+							if o.name == g.params[i].name {
+								mut = true
+							}
+						}
+					}
+				}
+			}
+		}
+		return true
+	})
+	return mut
+}
+
+func gjSignature(f *gjFunc) bool {
+	fd := f.fd
+	p := f.p
+	bad := func(format string, a ...interface{}) bool {
+		problem("internal/io json translation, function %s: %s", f.goName, fmt.Sprintf(format, a...))
+		return false
+	}
+	if fd.Recv != nil {
+		return bad("a method")
+	}
+	for _, fl := range fd.Type.Params.List {
+		if len(fl.Names) == 0 {
+			return bad("an argument without name")
+		}
+		for _, n := range fl.Names {
+			ty := gjResolve(p, fl.Type, f.goName+"."+n.Name, f.root)
+			if ty.k == "bad" {
+				return bad("argument %s has a type that is not understood: %s", n.Name, ggSrc(p.fset, fl.Type))
+			}
+			f.params = append(f.params, gjVar{name: n.Name, t: ty})
+			if ty.k == "list" && gjWritesElements(fd.Body, n.Name) {
+				f.outs = append(f.outs, gjVar{name: n.Name, t: ty})
+			}
+			if ty.k == "map" && gjWritesElements(fd.Body, n.Name) {
+				return bad("argument %s: a map that the function stores into", n.Name)
+			}
+		}
+	}
+	if fd.Type.Results != nil {
+		i := 0
+		for _, fl := range fd.Type.Results.List {
+			if len(fl.Names) > 0 {
+				return bad("named results")
+			}
+			ty := gjResolve(p, fl.Type, fmt.Sprintf("%s.result%d", f.goName, i), f.root)
+			if ty.k == "bad" || ty.k == "reader" || ty.k == "decoder" || ty.k == "conf" {
+				return bad("result type not understood: %s", ggSrc(p.fset, fl.Type))
+			}
+			f.results = append(f.results, ty)
+			i++
+		}
+	}
+	return true
+}
+
+func gjTranslate(f *gjFunc) {
+	p := f.p
+	t := &gjTr{p: p, f: f}
+	c := gjCtx{retv: func(tp string) string { return "Ok " + tp }}
+	c.vars = append(c.vars, f.params...)
+	for _, v := range c.vars {
+		if _, isFn := gjFuncs[v.name]; isFn {
+			t.fail(f.fd, "argument %s shadows a function", v.name)
+		}
+	}
+	body := t.stmts(f.fd.Body.List, c.deeper(), func(c2 gjCtx) string {
+		if len(f.results) != 0 {
+			t.fail(f.fd, "the function can fall off its end")
+		}
+		return "Ok " + t.outsTuple(nil)
+	})
+	var sig []string
+	f.needsFuel = gsMentions(body, "fuel'")
+	for _, l := range t.loops {
+		if gsMentions(l, "fuel'") {
+			f.needsFuel = true
+		}
+	}
+	if f.needsFuel {
+		sig = append(sig, "(fuel : nat)")
+	}
+	for _, v := range c.vars {
+		sig = append(sig, "(v_"+v.name+" : "+v.t.coq()+")")
+	}
+	var b strings.Builder
+	pk := gjPkg
+	if f.root {
+		pk = "qframe.go"
+	}
+	fmt.Fprintf(&b, "(* %s\n%s *)\n", pk, gsSource(p, f.fd))
+	for _, l := range t.loops {
+		b.WriteString(l)
+	}
+	if f.needsFuel {
+		fmt.Fprintf(&b, "Definition %s %s : outcome %s :=\n  match fuel with\n  | O => Panic\n  | S fuel' =>\n%s\n  end.\n",
+			f.coq, strings.Join(sig, " "), t.resultType(), gsIndent(gsIndent(body)))
+	} else {
+		fmt.Fprintf(&b, "Definition %s %s : outcome %s :=\n%s.\n", f.coq, strings.Join(sig, " "), t.resultType(), gsIndent(body))
+	}
+	f.text = b.String()
+	f.ok = !t.bad
+}
+
+func genIoJson() string {
+	p := loadPkg(gjPkg)
+	root := loadPkg(gjRootPkg)
+	gjFuncs = map[string]*gjFunc{}
+	if _, ok := p.files["json.go"]; !ok {
+		problem("internal/io json translation: file json.go not found")
+	}
+	gjLoadTypes(p)
+	if d, ok := gjTypeDecls["JSONRecords"]; !ok || !gjResolve(p, d, "JSONRecords", false).same(gjList(gjMap(gjAny))) {
+		problem("internal/io json translation: type JSONRecords is not []map[string]interface{} any more")
+	}
+	var order []*gjFunc
+	for _, n := range gjSpecs {
+		f := &gjFunc{goName: strings.TrimPrefix(n, "root:"), root: strings.HasPrefix(n, "root:"), p: p}
+		if f.root {
+			f.p = root
+		}
+		f.coq = "gj_" + f.goName
+		gjFuncs[f.goName] = f
+		order = append(order, f)
+	}
+	// every function of json.go must be among the translated ones
+	if jf, ok := p.files["json.go"]; ok {
+		for _, d := range jf.Decls {
+			if fd, ok := d.(*ast.FuncDecl); ok {
+				name := fd.Name.Name
+				if fd.Recv != nil && len(fd.Recv.List) == 1 {
+					name = recvName(fd.Recv.List[0].Type) + "." + name
+				}
+				if g, ok := gjFuncs[name]; !ok || g.root {
+					problem("internal/io json translation: function %s of json.go is not among the translated functions (gjSpecs)", name)
+				}
+			}
+		}
+	}
+	golden := ""
+	if fl := flag.Lookup("golden"); fl != nil && fl.Value.String() != "" {
+		if gb, err := os.ReadFile(filepath.Join(fl.Value.String(), "GenIoJson.v")); err == nil {
+			golden = string(gb)
+		}
+	}
+	block := func(b *strings.Builder, name, text string, ok bool) {
+		if !ok {
+			old, found := gfGoldenBlock(golden, name)
+			if !found {
+				return
+			}
+			text = "(* FALLBACK " + name + ": not derivable from the current source; text of the last validated tree *)\n" + old
+		}
+		fmt.Fprintf(b, "(* BEGIN %s *)\n%s(* END %s *)\n\n", name, text, name)
+	}
+	var b strings.Builder
+	b.WriteString(gjPreamble1)
+	for _, f := range order {
+		fd, ok := f.p.funcs[f.goName]
+		if !ok || fd.Body == nil {
+			problem("internal/io json translation: function %s not found", f.goName)
+			f.done = true
+			block(&b, f.coq, "", false)
+			continue
+		}
+		f.fd = fd
+		if gjSignature(f) {
+			gjTranslate(f)
+		}
+		f.done = true
+		block(&b, f.coq, f.text, f.ok)
+	}
+	b.WriteString("End GenIoJson.\n")
+	return b.String()
+}
